@@ -153,17 +153,20 @@ Definition prog (bk : backend) (e : ex) (n0 : nat) : program :=
 (* ---------- rows: several columns, scalar or vector ---------- *)
 Inductive column :=
 | ColScalar (e : ex)                                           (* an event-level value *)
-| ColVec (c : collref) (ps : list pred) (body : pa).           (* e.Coll("bank")[.Where(p)].Select(lambda x: body) *)
+| ColVec (c : collref) (ps : list pred) (body : pa)            (* e.Coll("bank")[.Where(p)].Select(lambda x: body) *)
+| ColFirst (c : collref) (ps : list pred) (body : pa) (line : string).
+    (* e.Coll("bank")[.Where(p)].Select(lambda x: body).First()  (or ....First().m()): the first passing element's
+       value; `line` is the emitted throw statement (its message quotes the query text) *)
 Definition row := list (string * column).                      (* branch name, column *)
 
 Fixpoint ex_size (e : ex) : nat :=
   match e with EInt _ => 0 | ECount _ => 3 | EBin _ a b => ex_size a + ex_size b end.
-Definition col_size (c : column) : nat := match c with ColScalar e => ex_size e | ColVec _ _ _ => 2 end.
+Definition col_size (c : column) : nat := match c with ColScalar e => ex_size e | ColVec _ _ _ => 2 | ColFirst _ _ _ _ => 3 end.
 Fixpoint row_size (r : row) : nat := match r with [] => 0 | (_, c) :: t => col_size c + row_size t end.
 
 Definition vec_type (ty : string) : string := "std::vector<" +++ ty +++ ">".
 Definition col_type (c : column) : string :=
-  match c with ColScalar e => ex_type e | ColVec _ _ body => vec_type (pa_type body) end.
+  match c with ColScalar e => ex_type e | ColVec _ _ body => vec_type (pa_type body) | ColFirst _ _ body _ => pa_type body end.
 
 (* class variable of column k: unique_name(name, is_class_var=True) after all per-event names *)
 Definition mem_name (name : string) (idx : nat) : string := nm ("_" +++ name) idx.
@@ -174,6 +177,15 @@ Definition tvec_loop (c : collref) (ps : list pred) (body : pa) (mem : string) (
        (Blk [] (one_stmt (fi_guards (map (tpred (iv_name n) (c_arrow c)) ps)
                                     (SPush mem None (tpa (iv_name n) (c_arrow c) body))))).
 
+(* call_First: flag declared in the block enclosing the loop, capture under the guards, throw-if after the loop;
+   the column member is assigned inside the capture *)
+Definition isf_name (n : nat) : string := nm "is_first" (S (S n)).
+Definition tfirst_capture (c : collref) (body : pa) (mem : string) (n : nat) : stmt :=
+  fi_capture (isf_name n) [] (one_stmt (SSet mem None (tpa (iv_name n) (c_arrow c) body))).
+Definition tfirst_loop (c : collref) (ps : list pred) (body : pa) (mem : string) (n : nat) : stmt :=
+  SFor (iv_name n) (CDeref (CVar (vcv_name c n)))
+       (Blk [] (one_stmt (fi_guards (map (tpred (iv_name n) (c_arrow c)) ps) (tfirst_capture c body mem n)))).
+
 (* code of one column in the event block: declarations, statements, next index *)
 Definition tcol (idiom : string) (c : column) (mem : string) (n : nat) : list decl * stmts * nat :=
   match c with
@@ -183,6 +195,11 @@ Definition tcol (idiom : string) (c : column) (mem : string) (n : nat) : list de
        SCons (SFetch idiom (vcv_name cr n) (c_ctype cr) (c_bank cr) (fetch_lines idiom (c_ctype cr) (c_bank cr)))
              (one_stmt (tvec_loop cr ps body mem n)),
        S (S n))
+  | ColFirst cr ps body line =>
+      ([{| d_type := c_ctype cr; d_name := vcv_name cr n; d_init := None |}; fi_decl (isf_name n)],
+       SCons (SFetch idiom (vcv_name cr n) (c_ctype cr) (c_bank cr) (fetch_lines idiom (c_ctype cr) (c_bank cr)))
+             (SCons (tfirst_loop cr ps body mem n) (one_stmt (fi_throw (isf_name n) line))),
+       S (S (S n)))
   end.
 
 (* all columns in order; member k is mem_name name_k (nf + k) *)
@@ -202,6 +219,7 @@ Fixpoint trow_sets (idiom : string) (r : row) (nf k n : nat) : stmts :=
       match c with
       | ColScalar e => let '(_, _, ce, n') := te idiom e n in SCons (SSet (mem_name name (nf + k)) None ce) (trow_sets idiom t nf (S k) n')
       | ColVec _ _ _ => trow_sets idiom t nf (S k) (S (S n))
+      | ColFirst _ _ _ _ => trow_sets idiom t nf (S k) (S (S (S n)))
       end
   end.
 Fixpoint trow_clears (r : row) (nf k : nat) : stmts :=
@@ -209,7 +227,7 @@ Fixpoint trow_clears (r : row) (nf k : nat) : stmts :=
   | [] => SNil
   | (name, c) :: t =>
       match c with
-      | ColScalar _ => trow_clears t nf (S k)
+      | ColScalar _ | ColFirst _ _ _ _ => trow_clears t nf (S k)
       | ColVec _ _ _ => SCons (SClear (mem_name name (nf + k))) (trow_clears t nf (S k))
       end
   end.
@@ -280,6 +298,18 @@ Fixpoint vec_loop (ev : event) (ty : string) (body : pa) (ps : list pred) (l : l
   | v :: r => rdo b <- passes ev v ps;
               if b then rdo x <- dpa ev v body; vec_loop ev ty body ps r (acc ++ [conv ty x]) else vec_loop ev ty body ps r acc
   end.
+(* First: the predicates are applied to every element (the loop runs to the end), the body only to the first
+   passing one *)
+Fixpoint first_loop (ev : event) (ty : string) (body : pa) (ps : list pred) (l : list value) (found : option value) : res (option value) :=
+  match l with
+  | [] => ROk found
+  | v :: r => rdo b <- passes ev v ps;
+              if b then match found with
+                        | Some _ => first_loop ev ty body ps r found
+                        | None => rdo x <- dpa ev v body; first_loop ev ty body ps r (Some (conv ty x))
+                        end
+              else first_loop ev ty body ps r found
+  end.
 Definition dcol (ev : event) (c : column) : res value :=
   match c with
   | ColScalar e => rdo v <- de ev e; ROk (conv (ex_type e) v)
@@ -287,6 +317,14 @@ Definition dcol (ev : event) (c : column) : res value :=
       match assoc_ss (c_ctype cr, c_bank cr) (ev_colls ev) with
       | None => RFault FRetrieve
       | Some (VVec l) => rdo vs <- vec_loop ev (pa_type body) body ps l []; ROk (VVec vs)
+      | Some VNull => RFault FNullDeref
+      | Some _ => RStuck (KType "the bank does not hold a collection")
+      end
+  | ColFirst cr ps body _ =>
+      match assoc_ss (c_ctype cr, c_bank cr) (ev_colls ev) with
+      | None => RFault FRetrieve
+      | Some (VVec l) => rdo o <- first_loop ev (pa_type body) body ps l None;
+                         match o with Some x => ROk x | None => RFault FThrow end
       | Some VNull => RFault FNullDeref
       | Some _ => RStuck (KType "the bank does not hold a collection")
       end
@@ -362,6 +400,12 @@ Definition d_col (s : sexp) : option (string * column) :=
       match d_bool ar, d_list d_pred ps, d_pa b with
       | Some ar', Some ps', Some b' =>
           Some (name, ColVec {| c_base := base; c_ctype := ct; c_bank := bank; c_arrow := ar' |} ps' b')
+      | _, _, _ => None
+      end
+  | SList [SAtom name; SList [SAtom "first"; SAtom base; SAtom ct; SAtom bank; ar; SList ps; b; SAtom line]] =>
+      match d_bool ar, d_list d_pred ps, d_pa b with
+      | Some ar', Some ps', Some b' =>
+          Some (name, ColFirst {| c_base := base; c_ctype := ct; c_bank := bank; c_arrow := ar' |} ps' b' line)
       | _, _, _ => None
       end
   | _ => None
